@@ -122,6 +122,14 @@ func forType(t reflect.Type, seen map[reflect.Type]bool, ignore bool, schemas ma
 	allowNull := false
 	for t.Kind() == reflect.Pointer {
 		allowNull = true
+		if t.Name() != "" {
+			// A named pointer type can refer to itself (type P *P).
+			if seen[t] {
+				return nil, fmt.Errorf("cycle detected for type %v", t)
+			}
+			seen[t] = true
+			defer delete(seen, t)
+		}
 		t = t.Elem()
 	}
 
